@@ -11,8 +11,8 @@ import (
 func init() {
 	register(&Property{
 		Meta: PropMeta{
-			ID:    "C09",
-			Level: "other",
+			ID:          "C09",
+			Level:       "other",
 			Explanation: "Path rules over the SSA control-flow graph of (*Parser).ParseArgs and its helpers, decided for all paths (hence all argument vectors): who may invoke Commander.Execute / Parser.CommandHandler (only ParseArgs); every dispatch site is reachable only through the edges `parseState.err == nil`, `internalError == nil`, `GO_FLAGS_COMPLETION empty` and ¬(commands present ∧ ¬SubcommandsOptional), and only after the defaults pass and checkRequired (must-pass-through with path-sensitive pruning of contradictory repeated conditions); no path runs two dispatches; every error value produced inside the argument loop reaches a store to parseState.err, a callee proven to store it on every non-nil return, or one of the two recoveries that are reachable only for ErrUnknownFlag; dispatch operand and success return are the same parseState.retargs; completion reaches no dispatch, Option.Set or Option.call; showBuiltinHelp always returns a non-nil ErrHelp error.",
 			NotDecided:  "That user code does not call Execute itself; Go call semantics (trusted). The rules decide the control-flow and data-provenance shape that makes the property hold; they do not execute the parser.",
 			Trusted:     []string{"go/ssa lowering (x/tools v0.29.0)", "go/types", "path-insensitive CFG over-approximation + sound pruning of contradictory repeated conditions", "Go call semantics"},
@@ -112,7 +112,8 @@ func runC09(c *Ctx, r *Report, tier string) {
 	all := c.instrs(nil, disp)
 	for _, in := range all {
 		fn := in.Parent()
-		r.Check(fn == pa, "WHO-dispatch", c.fname(fn), "dispatch "+dispatchDesc(c, in), c.ipos(in), "inside ParseArgs", "command dispatch outside (*Parser).ParseArgs")
+		own := c.ownerNames(fn)
+		r.Check(fn == pa || len(own) == 1 && own[0] == c.fname(pa), "WHO-dispatch", c.fname(fn), "dispatch "+dispatchDesc(c, in), c.ipos(in), "inside ParseArgs", "command dispatch outside (*Parser).ParseArgs")
 	}
 	sites := c.instrs(pa, disp)
 	r.Sites += len(all)
